@@ -150,6 +150,7 @@ class C01:
         r = get_ex("asan" if single else "fast").run(s, cpu=30, wall=120)
         t = by_index(r.trace)
         fails, keys, cc = [], [], {}
+        crashed = False
         for seq, mk in zip(seqs, marks):
             sig, msg, info = self.judge(schema, flags, [mk], t)
             if info["accepted"]:
@@ -158,6 +159,10 @@ class C01:
                 keys.append(h64([case["schema"], flags, mk[0]]))
             if sig is None:
                 continue
+            if sig == "no-result" and not single:
+                if crashed:
+                    continue
+                crashed = True
             if not single:
                 sub = {"schema": case["schema"], "flags": flags, "batch": [seq]}
                 o1 = self.check_batch(sub, get_ex)
